@@ -11,13 +11,20 @@ def bracket_token_patterns(maxn):
     return sorted(set(''.join(t) for n in range(maxn + 1) for t in itertools.product(toks, repeat=n)))
 
 
+def ext_token_patterns(maxn):
+    toks = ['!(', '?(', '*(', '@(', ')', '|', 'a', '/', '.', '*']
+    return sorted(set(''.join(t) for n in range(maxn + 1) for t in itertools.product(toks, repeat=n)))
+
+
 def parse_text_corr(ctx, name, flagsets, quick_len=3, thorough_len=4, extra_patterns=(), bytes_modes=(0, 1),
-                    brackets=True):
+                    brackets=True, groups=True):
     """Exact regex text: model vs WcParse(p, flags).parse() on bounded-exhaustive strings."""
     n = quick_len if ctx.quick else thorough_len
     pats = list(strings_upto(ALPHA14, n))
     if brackets:
         pats += bracket_token_patterns(3 if ctx.quick else 4)
+    if groups:
+        pats += ext_token_patterns(4 if ctx.quick else 5)
     # random longer strings mixing metacharacters, POSIX class tokens and ranges (same PRNG as the check)
     import random
     rng = random.Random('%d/%s' % (ctx.seed, name))
